@@ -381,6 +381,8 @@ def finish(ctx, verdicts, obs_by_id=None, *, evaluations, rule, nontrivial_keys,
     for sig, n in shown.items():
         if n > 1:
             print("  (%d further record(s) with signature %s)" % (n - 1, sig))
+    evaluations += getattr(ctx, "machine_evals", 0)
+    nontrivial_keys = list(nontrivial_keys) + list(getattr(ctx, "machine_keys", []))
     cov = {
         "states": max(ctx.states, 0),
         "transitions": max(ctx.transitions, 0),
